@@ -48,7 +48,8 @@ fn compartmentalize_map(map: &mut Mapping) {
     let keys = map
         .keys()
         .filter_map(Value::as_str)
-        .filter(|k| k.contains(ANY))
+        // a key that is just the wildcard is an already nested compartment
+        .filter(|k| k.contains(ANY) && *k != ANY)
         .map(str::to_string)
         .collect::<Vec<_>>();
 
